@@ -59,7 +59,7 @@ func c11HistCase(tier string, seed int64, idx int, scratch string) rt.CaseResult
 			steps[i].Key = "k"
 		}
 	}
-	out := runSeq(&c, scratch, "h", dbx.Options{Mode: dbx.Grpc}, steps, seqrun.Options{Probe: true, ProbeReader: kind == "kv", ProbeEnded: kind == "late"}, seed)
+	out := runSeq(&c, scratch, "h", dbx.Options{Mode: dbx.Grpc, OpenCtxDone: idx%3 == 1}, steps, seqrun.Options{Probe: true, ProbeReader: kind == "kv", ProbeEnded: kind == "late"}, seed)
 	if r := out.Runner; r != nil {
 		c.Evals = r.Stats.Steps + r.Stats.Probes
 		if out.Mism == nil {
